@@ -449,7 +449,7 @@ def check_interleavings(ctx, seed_mul=13, offset=4, nl=None, heavy=True):
     one lens object; results bit for bit, caller arrays, lens snapshot, to_dict()"""
     c13 = _lib()
     rng = random.Random(ctx.seed * seed_mul + offset)
-    nl = nl or ctx.n(8, 50)
+    nl = nl or ctx.n(6, 50)
     res = {'name': 'interleaving-differential-test (translation validation)', 'n': 0, 'nontrivial': 0,
            'samples': [], 'disagreements': [],
            'histogram': {'lenses': 0, 'variants': {}, 'raised': 0, 'calls_per_lens': 0}}
@@ -547,12 +547,13 @@ def check_method_histories(ctx, offset=6, nl=None):
     bitwise before/after every query, the lens likewise"""
     c13 = _lib()
     rng = random.Random(ctx.seed * 13 + offset)
-    nl = nl or ctx.n(3, 30)
+    nl = nl or ctx.n(2, 30)
     res = {'name': 'method-histories-on-one-analysis-object (translation validation)', 'n': 0, 'nontrivial': 0,
            'samples': [], 'disagreements': [],
            'histogram': {'input_class': 'method-level histories on one analysis object', 'lenses': 0, 'objects': 0,
                          'classes': {}, 'methods_per_class': {}, 'queries': 0, 'raised': 0}}
-    specs = [dict(CLIP_SPEC, variant='regression: clipping aperture (view() masks, fixes eb1bc3c f4c405d)')] + \
+    specs = [dict(CLIP_SPEC, variant='regression: clipping aperture (view() masks, fixes eb1bc3c f4c405d)'),
+             dict(FNO_SPEC, variant='ndarray imageFNO aperture, finite object')] + \
         _specs(ctx, rng, nl, ['coated', 'any', 'vignetting', 'plain', 'polarized', 'newton'])
     seen = set()
     for spec in specs:
@@ -645,9 +646,41 @@ def _matches_view_mask(w, f):
     return bool(ch.get('only_nan_written')) and all('.data' in a for a in ch.get('arrays', ['x']))
 
 
+FNO_ID = 'working-fno-scales-aperture-in-place'
+FNO_SPEC = {
+    'object_thickness': 200.0,
+    'surfaces': [{'type': 'standard', 'radius': 50.0, 'thickness': 5.0, 'is_stop': True,
+                  'material': ['ideal', 1.5168, 0.0]},
+                 {'type': 'standard', 'radius': -50.0, 'thickness': 60.0, 'material': 'air'}],
+    'aperture': ['imageFNO', 8.0], 'field_type': 'object_height',
+    'fields': [[0.0, 0.0, 0.0, 0.0], [5.0, 0.0, 0.0, 0.0]],
+    'wavelengths': [[0.55, True]], 'telecentric': False, 'c13': {'aperture_array': True}}
+FNO_CLASSES = {'GeometricMTF', 'FFTMTF', 'FFTPSF'}
+
+
+def _matches_fno(w, f):
+    """GeometricMTF.__init__ / FFTMTF._get_fno / FFTPSF._get_psf_units do `FNO *= (1 + |m|/p)` on what
+    Paraxial.FNO() returned: for an imageFNO aperture whose value is an ndarray and a finite object that IS the
+    lens' aperture value.  Only: those classes, the aperture value (and nothing else of the lens) changed, such a
+    lens."""
+    if w.get('kind') not in ('lens-state-changed', 'to_dict-changed'):
+        return False
+    spec = w.get('spec') or {}
+    if not (spec.get('c13') or {}).get('aperture_array') or spec.get('aperture', [None])[0] != 'imageFNO' \
+            or spec.get('object_thickness') == float('inf'):
+        return False
+    op = w.get('op') or {}
+    cls = w.get('cls') or op.get('cls') or ('FFTPSF' if op.get('op') == 'psf' else None)
+    if cls not in FNO_CLASSES:
+        return False
+    return 'aperture.value' in (w.get('diff') or '').split(':')[0]
+
+
 def matches_finding(w, f):
     if f['id'] in VIEW_MASKS:
         return _matches_view_mask(w, f)
+    if f['id'] == FNO_ID:
+        return _matches_fno(w, f)
     return _matches_d12(w, f)
 
 
@@ -671,9 +704,19 @@ def replay_finding(ctx, f):
         cls = VIEW_MASKS[f['id']]
         r = c13.replay_method_history(CLIP_SPEC, c13.build, VIEW_CTOR[cls], [], 'view', {})
         return 'analysis-object-state-changed' in r and any(isinstance(x, dict) and x.get('only_nan_written') for x in r)
+    if f['id'] == FNO_ID:
+        return _fno_reproduces()
     if f['id'] != D12:
         return None
     return _d12_reproduces()
+
+
+def _fno_reproduces():
+    c13 = _lib()
+    o = c13.build(FNO_SPEC)
+    before = float(o.aperture.value)
+    c13.run_op(o, {'op': 'mtf', 'cls': 'GeometricMTF', 'num_rays': 9, 'num_points': 8})
+    return float(o.aperture.value) != before
 
 
 def _d12_reproduces():
